@@ -86,8 +86,17 @@ def _run_locked(d, done, binp, sz, seed, corpus, tag):
         res["cached"] = True
         return res
     shutil.rmtree(d, ignore_errors=True)
+    # prune only older runs of the SAME tier and seed (another tier / seed may be running right now),
+    # and anything older than six hours
+    suffix = "_%s_%s%s" % (d.rsplit("_", 2)[1], d.rsplit("_", 2)[2], "")
     for old in glob.glob(os.path.join(CACHE, "serderun", "*")):
-        if old != d and (tag == "" or old.endswith(tag)):
+        if old == d or not os.path.isdir(old):
+            continue
+        try:
+            stale = time.time() - os.path.getmtime(old) > 6 * 3600
+        except OSError:
+            continue
+        if old.endswith(suffix) or stale:
             shutil.rmtree(old, ignore_errors=True)
     os.makedirs(d)
     t0 = time.time()
@@ -128,7 +137,7 @@ def model_output_for(res, case_idx, kind):
     k = inv[case_idx]
     per = meta["per_shard"]
     f = os.path.join(d, "model_out_%d.v" % case_idx)
-    body = ["From VV.SERDE Require Import CorrSerde.", "From Top Require cases_serde_%03d." % (k // per),
+    body = ["From VV.SERDE Require Import CorrSerde.", "From Cases Require cases_serde_%03d." % (k // per),
             "Eval vm_compute in match nth_error cases_serde_%03d.cases %d with" % (k // per, k % per),
             " | Some (RtTable v j1 _ j2 _) => Some (encode_table v, option_map encode_table (decode_table j1), option_map encode_table (decode_table j2))",
             " | Some (RtPlan v j1 _ j2 _) => Some (encode_plan v, option_map encode_plan (decode_plan j1), option_map encode_plan (decode_plan j2))",
@@ -138,7 +147,7 @@ def model_output_for(res, case_idx, kind):
             " | Some (MutConfig j _) => Some (JNull, option_map encode_config (decode_config j), None)",
             " | _ => None end."]
     open(f, "w").write("\n".join(body) + "\n")
-    rc, out, _ = vflib.sh(["timeout", "300", "coqc", "-noglob"] + vflib.q_flags(LAYER) + ["-Q", d, "Top", f], cwd=d, timeout=330)
+    rc, out, _ = vflib.sh(["timeout", "300", "coqc", "-noglob"] + vflib.q_flags(LAYER) + ["-Q", d, "Cases", f], cwd=d, timeout=330)
     if rc != 0:
         return "model evaluation failed: " + out[-500:]
     bl = vflib.parse_eval_outputs(out)
